@@ -16,6 +16,8 @@ from ..pathcond import calls_to, field_stores
 from . import C03
 from .route import FWD, HSP, PRE, SEL, producer_admission, routing_sources
 
+from .. import roles
+
 LEVEL = "other"
 REG = "srtla_core::registration::SrtlaRegistrationManager"
 PHASE = "srtla_core::connection::LinkPhase"
@@ -101,7 +103,8 @@ def d2_selectors(ctx):
                    key="D2:admit-implies-elig:%s" % nm)
         fn = pa.fn
         # every `best_idx = Some(i)` is at an admitted site and i is the index of the scored link
-        bl = [l for l, n in fn.names.items() if n == "best_idx"]
+        b0 = roles.result_local(ctx.w, fn, hint="best_idx")
+        bl = [b0] if b0 is not None else []
         if len(bl) != 1:
             ctx.chk.missing("D2", "%s: local best_idx" % nm, "")
             continue
@@ -138,7 +141,8 @@ def d2_selectors(ctx):
     enh = ctx.fn(C03.ENH, "D2")
     if enh:
         pa = ctx.pa(enh)
-        cl = [l for l, n in enh.names.items() if n == "current_score"]
+        c0 = roles.option_latch(ctx.w, enh, "f64", hint="current_score")
+        cl = [c0] if c0 is not None else []
         for d in pa.fa.defs.get(cl[0], []) if cl else []:
             if d[2] != "assign":
                 continue
